@@ -243,15 +243,7 @@ func (an *Analysis) mustSucceed(c *Call, T time.Duration) (bool, arrival) {
 // (a late datagram meant for an earlier call on the same fixed port).
 func (an *Analysis) foreignTraffic(c *Call) bool {
 	for _, r := range c.Reads {
-		own := false
-		for _, e := range c.St.Plan.Emits {
-			truncated := r.Note != fmt.Sprint(r.N)
-			if (len(e.Data) == len(r.Data) || (truncated && len(e.Data) > len(r.Data))) && string(e.Data[:len(r.Data)]) == string(r.Data) {
-				own = true
-				break
-			}
-		}
-		if !own {
+		if !ownDatagram(c, r) {
 			return true
 		}
 	}
@@ -263,15 +255,7 @@ func (an *Analysis) foreignTraffic(c *Call) bool {
 // broadcast path only what passes as the addressed controller's.
 func (an *Analysis) foreignDeciding(c *Call) bool {
 	for _, r := range c.Reads {
-		own := false
-		for _, e := range c.St.Plan.Emits {
-			truncated := r.Note != fmt.Sprint(r.N)
-			if (len(e.Data) == len(r.Data) || (truncated && len(e.Data) > len(r.Data))) && string(e.Data[:len(r.Data)]) == string(r.Data) {
-				own = true
-				break
-			}
-		}
-		if own {
+		if ownDatagram(c, r) {
 			continue
 		}
 		if c.Route.Path != "broadcast" {
@@ -282,6 +266,16 @@ func (an *Analysis) foreignDeciding(c *Call) bool {
 		}
 	}
 	return false
+}
+
+// ownDatagram: the delivered datagram was emitted by the call's own plan (the world tags every
+// emission with class@task.step.index; the kernel logs the tag with the read).
+func ownDatagram(c *Call, r vnet.Ev) bool {
+	i := strings.IndexByte(r.Dst, '@')
+	if i < 0 {
+		return false
+	}
+	return strings.HasPrefix(r.Dst[i+1:], fmt.Sprintf("%d.%d.", c.Task, c.Step))
 }
 
 func checkC09(an *Analysis, add func(Violation)) {
